@@ -85,11 +85,14 @@ package standard
 //@   ensures forall e phase0.Epoch {in(s.attested, e)} :: in(s.attested, e) ==> e + 2 > epochOf(duty.slot)
 //@   ensures forall e phase0.Epoch, v phase0.ValidatorIndex :: in(old(s.attested[e]), v) && u64(e + 2) > epochOf(duty.slot) ==> in(s.attested[e], v)
 //@   ensures forall e phase0.Epoch :: in(old(s.attested), e) && u64(e + 2) > epochOf(duty.slot) ==> in(s.attested, e)
+//@   // in particular the marks of the duty's own epoch are the same marks
+//@   ensures u64(epochOf(duty.slot) + 2) > epochOf(duty.slot) ==> s.attested[epochOf(duty.slot)] == old(s.attested[epochOf(duty.slot)])
 //@   loop 1
 //@     invariant forall e phase0.Epoch :: visited(e) && u64(e + 2) <= epochOf(duty.slot) ==> !in(s.attested, e)
 //@     invariant forall e phase0.Epoch :: in(s.attested, e) ==> in(old(s.attested), e)
 //@     invariant forall e phase0.Epoch :: in(old(s.attested), e) && u64(e + 2) > epochOf(duty.slot) ==> in(s.attested, e)
 //@     invariant forall e phase0.Epoch, v phase0.ValidatorIndex :: in(old(s.attested[e]), v) && u64(e + 2) > epochOf(duty.slot) ==> in(s.attested[e], v)
+//@     invariant u64(epochOf(duty.slot) + 2) > epochOf(duty.slot) ==> s.attested[epochOf(duty.slot)] == old(s.attested[epochOf(duty.slot)])
 //@   modifies contents(s.attested)
 //@
 //@ func (*Service).Attest
@@ -120,6 +123,8 @@ package standard
 //@   at call attest#1: assert forall k int :: 0 <= k && k < len(arg3) ==> !in(old(s.attested[epochOf(duty.slot)]), accountValidatorIndices[k])
 //@   // ... and whatever the outcome (success, failed fetch, failed signing or submission) the marks stay: nothing recent is un-marked
 //@   ensures forall e phase0.Epoch, v phase0.ValidatorIndex :: in(old(s.attested[e]), v) && u64(e + 2) > epochOf(duty.slot) ==> in(s.attested[e], v)
+//@   at call attest#1: assert forall j int :: 0 <= j && j < len(duty.validatorIndices) ==> in(s.attested[epochOf(duty.slot)], duty.validatorIndices[j])
+//@   at call housekeepAttestedMap#1: assert forall j int :: 0 <= j && j < len(duty.validatorIndices) ==> in(s.attested[epochOf(duty.slot)], duty.validatorIndices[j])
 //@   ensures u64(epochOf(duty.slot) + 2) > epochOf(duty.slot) ==> forall j int :: 0 <= j && j < len(duty.validatorIndices) ==> in(s.attested[epochOf(duty.slot)], duty.validatorIndices[j])
 //@   // C20: a successful call leaves only the marks of a fixed window of recent epochs
 //@   ensures result1 == nil ==> forall e phase0.Epoch {in(s.attested, e)} :: in(s.attested, e) ==> e + 2 > epochOf(duty.slot)
